@@ -13,7 +13,7 @@
    log id = (block x 4096 + tx) x 4096 + index-in-block.
    RESOLVE (after LOOKUPS) = per tx id: (block number) as BlockChain.GetCanonicalTransaction
    answers (the cached public path), or (). *)
-From GV Require Import Lib.Sx Chain.Tree Chain.Canonical.
+From GV Require Import Lib.Sx Chain.Tree Chain.Canonical Chain.LookupCache.
 Local Open Scope N_scope.
 
 Fixpoint tx_logs (bid : N) (txs : list (N * N)) (idx : N) : list N :=
@@ -66,27 +66,6 @@ Fixpoint nodup_sorted_insert (x : N) (l : list N) : list N :=
   | y :: r => if x <? y then x :: l else if x =? y then l else y :: nodup_sorted_insert x r
   end.
 
-(* BlockChain.txLookupCache as the harness drives it: after every operation it asks
-   GetCanonicalTransaction for every tx of the case; a hit is answered from the cache, a
-   miss from the index (rawdb.ReadCanonicalTransaction) and, when found, cached.  The cache
-   is emptied by reorg and SetHead ([EvPurge]) and does not survive a restart. *)
-Definition cache : Type := list (N * (N * N)).
-Fixpoint cache_get (c : cache) (tx : N) : option (N * N) :=
-  match c with
-  | [] => None
-  | (t, v) :: r => if t =? tx then Some v else cache_get r tx
-  end.
-Definition answer (T : tree) (st : db) (c : cache) (tx : N) : option (N * N) :=
-  match cache_get c tx with Some v => Some v | None => resolve_tx T st tx end.
-Definition refresh (T : tree) (st : db) (c : cache) (txids : list N) : cache :=
-  fold_left (fun acc tx => match cache_get acc tx with
-                           | Some _ => acc
-                           | None => match resolve_tx T st tx with Some v => (tx, v) :: acc | None => acc end
-                           end) txids c.
-Definition purges (o : op) (evs : list event) : bool :=
-  (match o with ORestart => true | _ => false end) ||
-  existsb (fun ev => match ev with EvPurge => true | _ => false end) evs.
-
 Definition obs_of (T : tree) (maxn : N) (txids : list N) (c : cache) (o : outcome) : sx :=
   let '(st, evs, e) := o in
   SL [ SI (err_code e);
@@ -105,7 +84,7 @@ Fixpoint run_ops (T : tree) (fuel : nat) (maxn : N) (txids : list N) (st : db) (
   | [] => []
   | o :: r => let out := step T fuel st o in
               let st1 := fst (fst out) in
-              let c1 := if purges o (snd (fst out)) then [] else c in
+              let c1 := if purges false o (snd (fst out)) then [] else c in
               obs_of T maxn txids c1 out :: run_ops T fuel maxn txids st1 (refresh T st1 c1 txids) r
   end.
 
